@@ -311,6 +311,7 @@ def part_idx(ctx):
 def part_sib(ctx):
     from . import rules_sib
     rules_sib.check(ctx, module(CFG[0], "ssa"), CFG[0])
+    ctx.floor("R-SIB", "loop tests with a polygon's outer loop or a foreign loop", rules_sib.check_loopbox(ctx, module(CFG[0], "ssa"), CFG[0]), 3)
     ctx.explanation += ("R-SIB: every call that receives a hole of the polygon together with a bounding box uses bboxes[hole index + 1], "
                         "the convention of the writer bboxesFromGeoPolygon (sibling cross-check). ")
 
